@@ -53,7 +53,7 @@ def _prelude(c, L, url, proxies):
 
 
 def run_proxy(c, P):
-    L = lomond(fresh=True)
+    L = lomond()
     cfgs = P.get('configs') or list(range(len(CONFIGS)))
     ci = cfgs[c.choose(len(cfgs), 'cfg')]
     url, proxies, purl, phost, pport, ptls, thost, tport, wss = CONFIGS[ci]
